@@ -841,7 +841,11 @@ def check_scale(tn, what, Y, kw, tol):
     if not finite_tt(Z):
         return dict(what=f'{what} (stabilised) returned non-finite entries on a finite scaled tensor', input=inp)
     if val is not None and np.isfinite(float(sc)) and sc > 0:
-        err = np.max(np.abs(val - ref))
+        if what == 'truncate':          # rounding may move the tensor by e * ||Y||_F (that bound itself is C02's business)
+            err = np.sqrt(np.sum(((val - ref) / sc) ** 2)) * sc
+            tol = tol + 1.5 * kw.get('e', 1e-10) * float(np.sqrt(np.sum((ref / sc) ** 2)))
+        else:
+            err = np.max(np.abs(val - ref))
         if not err <= tol * sc:
             return dict(what=f'{what} (stabilised): dense tensor differs from the extended-precision reference by '
                              f'{float(err / sc):.3e} (relative)', input=inp)
